@@ -258,11 +258,11 @@ Print Assumptions C20_merge_sum_tree.
 
 (* ---------- domain guards: where the model answers RBad, the code panics (driver class "domain") ---------- *)
 (* withVars: `b.maxSleep > 0 && math.MaxInt32/b.vars.BackOffWeight >= b.maxSleep` — integer divide by zero for
-   BackOffWeight = 0 (NewBackofferWithVars and ResetMaxSleep with a positive budget).  The model is conservative for
-   ONew: RBad also when the budget is <= 0, where the code short-circuits and does not divide. *)
+   BackOffWeight = 0 (NewBackofferWithVars and ResetMaxSleep with a positive budget; with a budget <= 0 the code
+   short-circuits, does not divide, and the model proceeds as well). *)
 Theorem C20_domain_weight0 : forall e w v x,
   nth_error (w_vars w) v = Some x -> v_weight x = 0 ->
-  (forall m, step e w (ONew m v 0) = (w, RBad)) /\
+  (forall m, 0 < m -> step e w (ONew m v 0) = (w, RBad)) /\
   (forall i b m, nth_error (w_bos w) i = Some b -> b_live b = true -> 0 < m -> b_vars b = Some v ->
                  step e w (OResetMax i m) = (w, RBad)).
 Proof. exact domain_weight0. Qed.
